@@ -702,8 +702,10 @@ def _name_class(trace, name, where):
         if sum(1 for e in exp if e.split(".")[-1] == last) >= 2:
             return "distinct-scoped-explicit-names-collide"      # different scopes/names, one emitted name
         return "auto-name-equals-explicit-output-name"
-    if where.startswith("graph/"):
-        return "subgraph-auto-name-redefines-visible-name"
+    if where.startswith("graph/") or _has(trace, ("if", "loop", "scan")):
+        # auto-generated names count nodes per graph, so every subgraph restarts at <Op>_0: an inner name equals
+        # an outer one (checker: not SSA), a sibling's, or one the outer graph defines later
+        return "subgraph-auto-names-restart"
     if _has(trace, ("fn",)):
         return "function-call-names"
     return "auto-names"
@@ -780,6 +782,10 @@ def _check_model(trace, b, exp, viols, counts, tag):
         except runeq.RunError as e:
             if viols:
                 return "invalid"
+            if exp[fi].get("__unsettled__"):
+                # ORT already refused one of the calls on its own (one-node model): nothing is concluded
+                counts["ort_refuses_a_call_of_the_trace"] = counts.get("ort_refuses_a_call_of_the_trace", 0) + 1
+                return "ort-refuses-unsettled"
             # every single call ran on ORT in the replay, so a model ORT cannot load/run is not a valid model
             if _returns_outer(trace):
                 add("invalid-model", "subgraph-returns-outer-value", {"problem": e.msg[:400],
@@ -1019,7 +1025,8 @@ def _exec_tree(item):
     if sorted(sd) != sorted(set(npk)):
         add("state-dict-vs-named-parameters", _where(spec, set(sd) ^ set(npk)), {"state_dict": sd, "named_parameters": npk})
     if sorted(sd) != sorted(t_sd):
-        add("state-dict-vs-pytorch", _where(spec, set(sd) ^ set(t_sd)), {"onnxscript": sd, "torch": t_sd})
+        cls = "Sequential-slice" if "seq:slice" in feats else _where(spec, set(sd) ^ set(t_sd))
+        add("state-dict-vs-pytorch", cls, {"onnxscript": sd, "torch": t_sd})
     if sorted(npk) != sorted(t_np_all):
         if sorted(sd) == sorted(t_sd):
             add("named-parameters-vs-pytorch", _where(spec, set(npk) ^ set(t_np_all)), {"onnxscript": npk, "torch": t_np_all})
